@@ -108,3 +108,12 @@ package arp
 //@                           && asptr(ls[1], layers.ARP).Operation == 1 && asptr(ls[1], layers.ARP).SourceHwAddress == r.SrcMAC && asptr(ls[1], layers.ARP).SourceProtAddress == r.SrcIP
 //@                           && asptr(ls[1], layers.ARP).DstProtAddress == d4
 //@                           && len(asptr(ls[1], layers.ARP).DstHwAddress) == 6 && (forall i int :: 0 <= i && i < 6 ==> asptr(ls[1], layers.ARP).DstHwAddress[i] == 0) -> exit
+
+// C06: the parser decodes from Ethernet into THIS method's own Ethernet and ARP structs, skips unsupported inner
+// layers, and keeps gopacket's panic recovery on (a decoder panic surfaces as an error, never as a crash)
+//@ func NewScanMethod
+//@   props C06 C03
+//@   observe gopacket.NewDecodingLayerParser
+//@   entry row parser: [call gopacket.NewDecodingLayerParser(layers.LayerTypeEthernet, bind_ds) as (p)]
+//@                        when len(ds) == 2 && isptr(ds[0], layers.Ethernet) && asptr(ds[0], layers.Ethernet) == addr(ret.rcvEth) && isptr(ds[1], layers.ARP) && asptr(ds[1], layers.ARP) == addr(ret.rcvARP)
+//@                          && ret.parser == p && p.IgnoreUnsupported && !p.IgnorePanic && ret.PacketSource == psrc && ret.results == results -> exit
